@@ -10,6 +10,7 @@ import VaxisModel.Lemmas.Parser
 import VaxisModel.Lemmas.ParserAbs
 import VaxisModel.Lemmas.ParserDcs
 import VaxisModel.Lemmas.ParserText
+import VaxisModel.Lemmas.ParserLeak
 
 namespace VaxisModel.Props.C02
 open VaxisModel.Model.ParserTable VaxisModel.Model.Parser
@@ -402,5 +403,33 @@ theorem chunk_independent_ascii (cl1 cl2 : Nat → Nat) (c1 c2 : List (List Nat)
   obtain ⟨g1, a1, a2, _⟩ := text_conserved_ascii cl1 c1 h1
   obtain ⟨g2, b1, b2, _⟩ := text_conserved_ascii cl2 c2 h2
   exact ⟨g1, g2, a1, b1, by rw [a2, b2, hsame]⟩
+
+/-! ## No leak -/
+
+/-- **No leak.**  Whatever intermediates and parameter bytes are left over in the parser from an
+    earlier sequence — finished, cancelled or malformed — they never influence what is delivered
+    afterwards: from any state in which no sequence header is being collected (ground, ss3, the
+    control-string states, the ignore states), replacing the leftovers by anything else changes
+    nothing in the items delivered for any following input.  (Table check: in those states every arm
+    either does not touch `intermediate`/`params` or clears them first — decided for all runes — then
+    a simulation along the run.) -/
+theorem no_leak (s : PState) (hd : VaxisModel.Lemmas.ParserLeak.dead s.state = true)
+    (inter params : List Nat) (w : List Nat) :
+    (run s w).2 = (run { s with inter := inter, params := params } w).2 := by
+  have key : ∀ (w : List Nat) (a b : PState), VaxisModel.Lemmas.ParserLeak.Rel a b → (run a w).2 = (run b w).2 := by
+    intro w
+    induction w with
+    | nil => intro a b _; rfl
+    | cons c w ih =>
+      intro a b hab
+      obtain ⟨h1, _, h3⟩ := VaxisModel.Lemmas.ParserLeak.step_rel handTable hand_boundsOk
+        (by decide +kernel) a b hab c
+      simp only [run, pstep]
+      rw [h1, ih _ _ h3]
+  exact key w _ _ (Or.inr ⟨hd, rfl, rfl, rfl, rfl, rfl, rfl⟩)
+
+-- non-vacuity: ground with stale parameter bytes and intermediates from `ESC [ 3 ; 1 $` + CAN
+example : VaxisModel.Lemmas.ParserLeak.dead (run PState.init [0x1B, 0x5B, 0x33, 0x3B, 0x31, 0x24, 0x18]).1.state = true ∧
+    (run PState.init [0x1B, 0x5B, 0x33, 0x3B, 0x31, 0x24, 0x18]).1.params = [0x33, 0x3B, 0x31] := by decide
 
 end VaxisModel.Props.C02
